@@ -6,9 +6,12 @@
 set -u
 PATCH="$1"; shift
 PROPS="${*:-C01 C02 C03 C04 C05 C06 C07 C08 C09 C10 C11 C12 C13 C14 C15 C16 C17 C18 C19 C20}"
-cd /verif
-if [ -n "$(git -C /repo status --porcelain --untracked-files=no)" ]; then echo "/repo is not clean"; exit 2; fi
-git -C /repo apply "$PATCH" || { echo "patch does not apply"; exit 2; }
+V="$(cd "$(dirname "${BASH_SOURCE[0]}")/.." && pwd)"
+R="${GDSL_REPO:-/repo}"
+export GDSL_REPO="$R"
+cd "$V"
+if [ -n "$(git -C $R status --porcelain --untracked-files=no)" ]; then echo "$R is not clean"; exit 2; fi
+git -C $R apply "$PATCH" || { echo "patch does not apply"; exit 2; }
 TIER="${TIER:-quick}"
 for p in $PROPS; do
     out=$(./check $p --tier $TIER 2>&1); rc=$?
@@ -17,5 +20,5 @@ for p in $PROPS; do
     echo "$p exit=$rc violations=$nv $first"
     if [ $rc -eq 2 ]; then echo "$out" | grep -i "machinery" | head -3; fi
 done
-git -C /repo checkout -- .
-git -C /repo status --porcelain --untracked-files=no | head -3
+git -C $R checkout -- .
+git -C $R status --porcelain --untracked-files=no | head -3
